@@ -42,6 +42,17 @@ def dbStep (E : Impl.Env) (db : Impl.Db) (op : String) : Impl.Db × String :=
     | .ok db' => (db', "ok " ++ hex (Impl.encDb db'))
     | .error _ => (db, "err " ++ hex (Impl.encDb db))
   | ["Q", t, o, d] => (db, toString (db.has (unhex t) (unhex o) (unhex d)))
+  -- "AS" / "RS" / "QS": the same three operations entered through SignatureDatabase.AppendSignature /
+  -- RemoveSignature / SigDataExists; the model has one definition per operation, whatever the entry point
+  | ["AS", t, o, d] =>
+    match db.append E (unhex t) (unhex o) (unhex d) with
+    | .ok db' => (db', "ok " ++ hex (Impl.encDb db'))
+    | .error _ => (db, "err " ++ hex (Impl.encDb db))
+  | ["RS", t, o, d] =>
+    match db.remove (unhex t) (unhex o) (unhex d) with
+    | .ok db' => (db', "ok " ++ hex (Impl.encDb db'))
+    | .error _ => (db, "err " ++ hex (Impl.encDb db))
+  | ["QS", t, o, d] => (db, toString (db.has (unhex t) (unhex o) (unhex d)))
   | ["X", t, sigs] => (db, toString (db.hasAll (unhex t) (parseSigs sigs)))
   | ["L", t, size, sigs] =>
     let ss := parseSigs sigs
@@ -143,7 +154,7 @@ def opsStep (E : Impl.Env) (st : OpsState) (op : String) : OpsState × String :=
     if o == "bad-op" then (⟨db', st.held⟩, o)
     else if kind == "L" || kind == "LM" || kind == "LH" || kind == "DH" then
       (⟨db', st.held ++ [some (db'.length - 1)]⟩, o)
-    else if kind == "R" && o.startsWith "ok " then
+    else if (kind == "R" || kind == "RS") && o.startsWith "ok " then
       match rest with
       | [t, ow, d] =>
         (match dropIdx st.db (unhex t) (unhex ow) (unhex d) with
